@@ -375,6 +375,16 @@ def run(ctx):
             check_cookie(ctx, s, "v", kw, "name")
         check_redirect(ctx, rng.choice(["/", "http://h/", "//h/p?", "p#", "https://example.org", "//host", ""]) + s, rng.random() < 0.2)
         ctx.case(("long", s))
+    # --- a process that has quoted cookies with many hundreds of different characters above U+00FF: hostile text afterwards
+    if ctx.shard == 0:
+        for i in range(1200):
+            ch = chr(0x4E00 + i * 7)
+            check_cookie(ctx, "k", ch + rng.choice(["; Domain=evil.example", "\r\nSet-Cookie: x=1", ",", "\""]) + ch, {}, "value")
+            ctx.mon("many-distinct-characters")
+        for hostile in ("v; Domain=evil.example", "a\r\nSet-Cookie: admin=1", "nul\x00", "q\"uote", "a,b", "back\\slash"):
+            check_cookie(ctx, "sid", hostile, {}, "value")
+            check_cookie(ctx, hostile, "v", {}, "name")
+        ctx.case(("many-chars",))
     # --- long / exotic but clean header values, stored and emitted
     for i in range(ctx.scale(400, 20_000)):
         unit = rng.choice(["\u4f60\u597d", "\u0100", "\xe9", "a", "=?utf-8?q?x?=", " ", "\t", ";", "\U0001f600"])
